@@ -237,7 +237,7 @@ pub fn match_record_sel(
     _ => {
       // the pattern was refused: for a pattern cut from this very node that is an outcome, not a reason to skip it
       let rt = rt?;
-      let no = json!({"ok": false, "panic": false, "single": {}, "multi": {}, "len": -1, "yaml": -1});
+      let no = json!({"ok": false, "panic": false, "single": {}, "multi": {}, "len": -1, "yaml": -1, "vianew": -1});
       let mut rec = json!({
         "id": id, "lang": util::lang_name(lang), "pattern": pattern_text, "cand": cand.text().chars().take(300).collect::<String>(),
         "PT": rt.clone(), "RT": rt, "nopat": true, "T": slim_table(&p, cand.root().get_text()),
@@ -269,6 +269,16 @@ pub fn match_record_sel(
       Some(ast_grep_core::Matcher::match_node_with_env(&rule, cand.clone(), &mut env).is_some())
     }));
     o["yaml"] = json!(match via_rule { Ok(Some(true)) => 1, Ok(Some(false)) => 0, _ => -1 });
+    // ... and built by the infallible constructor `Pattern::new` (the one behind `Pattern::str`, `impl Matcher for str` and
+    // the language bindings): the same pattern, whatever was compiled before it on this thread
+    let via_new = if selector.is_some() { -1 } else {
+      match catch_unwind(AssertUnwindSafe(|| {
+        let pn = Pattern::new(pattern_text, lang).with_strictness(strictness(lv));
+        let mut env = std::borrow::Cow::Owned(ast_grep_core::meta_var::MetaVarEnv::new());
+        ast_grep_core::Matcher::match_node_with_env(&pn, cand.clone(), &mut env).is_some()
+      })) { Ok(true) => 1, Ok(false) => 0, Err(_) => -1 }
+    };
+    o["vianew"] = json!(via_new);
     outs.insert(lv.to_string(), o);
   }
   let mut rec = json!({
